@@ -40,6 +40,7 @@ EXPLANATION += (" R-C20-10: a string attribute that the exporter creates from a 
 EXPLANATION += (" R-C20-11: the exporter reduces the repeated rows of the element-nodal frame to one row per node by selection (groupby().first() and the like), never by an arithmetic aggregation (mean of k equal floats is not the float; integer columns become floats). R-C20-12: the importer computes the membership of mesh ids in a stored set without assume_unique=True (the id levels repeat every id). Both have a built-in example that must match on every run.")
 EXPLANATION += (" R-C20-13: imported variables are attached to the mesh by a join on the index labels; giving a frame another frame's index by position (set_axis / set_index / .index = other.index) is a violation (built-in example). R-C20-3 also rejects a shortcut in the range-checking function whose condition does not establish a signed type of at most 32 bits.")
 EXPLANATION += (" R-C20-14: the groupby over the element id that produces the element table of the file sorts its keys (elements ordered by id). R-C20-15: add_node_set validates the given ids against the index level 'node_id' and add_element_set against 'element_id' (level literals reaching get_level_values directly or through a helper).")
+EXPLANATION += (" R-C20-16: no importer method transposes, reshapes or flattens the MYVALUES array it reads (expected count zero).")
 ASSUMPTIONS = [
     "h5py semantics: group[name] addresses a child, create_group/create_dataset create it, attrs is a key/value store",
     "string formatting with %s inserts exactly one path component",
@@ -425,6 +426,42 @@ def _table_driven_level(fi, e):
     return None
 
 
+def _check_value_layout(ctx, prog, imp_ci):
+    """R-C20-16: the importer takes the variable values in the layout the exporter writes (one row per location, one column per
+    component).  It does not transpose or reshape the MYVALUES array, least of all depending on its shape: a variable with exactly as
+    many rows as components would come back transposed."""
+    ctx.rule("R-C20-16", floor=1, what="the importer does not transpose / reshape the MYVALUES array")
+    hits, n = [], 0
+    for name, defs in sorted(imp_ci.methods.items()):
+        fi = defs[-1]
+        if not any(isinstance(c, ast.Constant) and c.value == "MYVALUES" for c in ast.walk(fi.node)):
+            continue
+        n += 1
+        vals = set()
+        for st in walk_function(fi.node):
+            if isinstance(st, ast.Assign) and len(st.targets) == 1 and isinstance(st.targets[0], ast.Name) and \
+                    any(isinstance(c, ast.Constant) and c.value == "MYVALUES" for c in ast.walk(st.value)):
+                vals.add(st.targets[0].id)
+        for node in ast.walk(fi.node):
+            base = None
+            if isinstance(node, ast.Attribute) and node.attr in ("T", "transpose", "reshape", "swapaxes", "ravel", "flatten"):
+                base = node.value
+            elif isinstance(node, ast.Call) and (call_name(node) or "") in ("np.transpose", "np.reshape", "np.swapaxes", "np.moveaxis", "np.ravel") and node.args:
+                base = node.args[0]
+            if base is None:
+                continue
+            if any((isinstance(x, ast.Constant) and x.value == "MYVALUES") or (isinstance(x, ast.Name) and x.id in vals) for x in ast.walk(base)):
+                hits.append((fi, node))
+    for fi, node in hits:
+        ctx.violated(fi, node, "%s changes the layout of the stored values (%s): the exporter writes one row per location and one column per "
+                     "component, a variable with as many rows as components is read back transposed" % (fi.name, norm_text(node)[:60]),
+                     text="layout of MYVALUES changed in " + fi.name)
+    if n == 0:
+        raise AnalysisError("no importer method reads MYVALUES")
+    if not hits:
+        ctx.holds(imp_ci.key, None, "%d method(s) read MYVALUES as stored" % n)
+
+
 def _check_set_levels(ctx, prog, exp_ci):
     """R-C20-15: a node set is validated against the node ids of the mesh, an element set against its element ids.  The index
     level literals reaching get_level_values (directly or as arguments of a helper of the exporter) in add_node_set are exactly
@@ -538,6 +575,7 @@ def run(ctx):
     ctx.attempt(lambda c: _check_label_joins(c, prog, imp_ci))
     ctx.attempt(lambda c: _check_element_order(c, prog, exp_ci))
     ctx.attempt(lambda c: _check_set_levels(c, prog, exp_ci))
+    ctx.attempt(lambda c: _check_value_layout(c, prog, imp_ci))
 
     # ---------------------------------------------------------------- R-C20-4 read only
     ctx.rule("R-C20-4", floor=2, what="importer opens the file read-only and reaches no write call")
